@@ -44,7 +44,7 @@ _RC_NOTE = "Trusted: Lean kernel + audited axioms; SC for the half-locks (all Se
 CLAIMED["C02"] = {
   "text": "Lean 4 theorems on the concurrent registry model L6 (two embedded half-lock machines + snapshot contents + kernel table; any number of threads, every interleaving, every state): the dispatcher's plan is a function of the pinned data snapshot only (the slot's actions in map order, nothing of other signals), it is executed one action per step in order each exactly once with the chained handler first, the pinned snapshot is the one current at the delivery's data.load() (C01_read_gets_current), registrations append (execution order = registration order), removals keep the order of the rest, operations never touch other signals' slots and never remove slots. Tied to /repo by lock-step differential execution of the real registry (real register/unregister/unregister_signal + the real dispatcher via verif::deliver, incl. deliveries nested on mutator threads) against L6 on the same schedule, and by the C02 trace monitor (each delivery's run list = the action list of the registry state current at its load; spec advanced at each publication) evaluated on the implementation trace.",
   "design_ref": "DESIGN.md section 6 C02",
-  "note": _RC_NOTE + " The real-time corollary (registered-before / removed-after) is checked by the trace monitor on every explored schedule and follows from the proved step lemmas + writer mutual exclusion (C18); Proved for every reachable L6 state: C02_publications_linearize (the current contents change only at a data.swap and then by exactly one sequential-specification step of the contents current at that swap), C02_delivery_pins_current, C02_runs_pinned_list, C02_contents_immutable; tie theorem C02_mutator_skeleton on the regenerated call order.",
+  "note": _RC_NOTE + " The real-time corollary (registered-before / removed-after) is checked by the trace monitor on every explored schedule and follows from the proved step lemmas + writer mutual exclusion (C18); Proved for every reachable L6 state: C02_publications_linearize (the current contents change only at a data.swap and then by exactly one sequential-specification step of the contents current at that swap), C02_delivery_pins_current, C02_runs_pinned_list, C02_contents_immutable; tie theorem C02_mutator_skeleton on the regenerated call order. The real-time clause is proved over runs of any length (Props/C02b.lean): C02_registered_stays (a published entry survives every run whose publications are registrations) and C02_removed_stays_removed (ids are never reused: an entry that is gone is in the current contents of no later state).",
   "technique": "Lean 4 step lemmas over the N-thread registry machine + lock-step model/implementation correspondence + linearizability monitor on implementation traces",
 }
 CLAIMED["C03"] = {
@@ -64,7 +64,7 @@ _CH_NOTE = "Trusted: Lean kernel + audited axioms (decide +kernel over finite ta
 CLAIMED["C06"] = {
   "text": "Lean 4 proofs by complete enumeration (decide +kernel, lifted by closure lemmas) over all 326 well-formed queue states that the packed u16 queues are exact List FIFOs: dequeue hands out the head and leaves the tail, enqueue appends at the tail and never panics with room, empty is reported iff empty, pack is injective and well-formed states are closed; model-level lemma for every state and every environment choice that a value is discarded only by a step that read an empty `empty` queue. Tied to /repo by the regenerated constants, the exhaustive get/set table (2^16 x 5 x 9 arguments, real functions vs model), lock-step execution of the real Channel under the scheduler (N threads, bursts beyond capacity, sends nested as a signal handler, spurious CAS failures) against the model, FIFO/uniqueness/outstanding-count monitors on the implementation trace, and an unscheduled stress search when the correspondence breaks.",
   "design_ref": "DESIGN.md section 6 C06",
-  "note": _CH_NOTE + " The N-thread invariant of the view-based model (Lemmas/ChannelInv.lean: one holder per slot index, every value in both histories well-formed, cells of `full`'s indices occupied) is proved for every reachable state: C06_queues_wellformed, C06_fifo_transitions; the payload-level statement (values, per-producer order, five outstanding) is the monitor's.",
+  "note": _CH_NOTE + " The N-thread invariant of the view-based model (Lemmas/ChannelInv.lean: one holder per slot index, every value in both histories well-formed, cells of `full`'s indices occupied) is proved for every reachable state: C06_queues_wellformed, C06_fifo_transitions; the payload-level statement (values, per-producer order, five outstanding) is the monitor's. 40% of the scheduled scenarios use a channel built through Default (as the exfiltrators build theirs); sequential histories of 70 000 (thorough: 200 000) operations check overflow and reuse over a long life.",
   "technique": "Lean 4 inductive invariant over the N-thread view-based channel machine + exhaustive kernel-checked tables; lock-step correspondence; exhaustive bit-function table",
 }
 CLAIMED["C07"] = {
@@ -110,7 +110,7 @@ CLAIMED["C12"] = {
 CLAIMED["C14"] = {
   "text": "Lean 4 theorems for every registry state, every entry point, every number in Int and every environment: a checked entry point given a forbidden signal panics with the state literally unchanged and nothing retained; any entry point given a number the OS rejects returns an error with the state unchanged (for set-only rejections only the inert fallback differs, observationally unchanged); unchecked entry points register whatever the OS accepts; the iterator front-ends refuse forbidden / negative / too large / OS-rejected numbers leaving registry and watched set as before; the forbidden list regenerated from the source is exactly KILL, STOP, ILL, FPE, SEGV; witness that before the fix a constructor given a forbidden signal after a valid one aborted. Tied to /repo by an exhaustive forked table: 11 plain entry points + 4 iterator entry points x every number -2..130 and extremes x contexts (fresh, after other registrations, after an unchecked registration of the same forbidden signal), compared with the model and judged by the property monitor (result kind, all 64 dispositions, Arc counts / descriptor validity, follow-up usability, no abort).",
   "design_ref": "DESIGN.md section 6 C14",
-  "note": _EN_NOTE + " The genuine defect (process abort in the iterator constructors) was repaired by fix: bd23c21.",
+  "note": _EN_NOTE + " The genuine defect (process abort in the iterator constructors) was repaired by fix: bd23c21. The monitor demands of every refusal, whatever its reason, that no disposition changed and what was handed in was released.",
   "technique": "Lean 4 theorems over all states/numbers + exhaustive forked entry-point table",
 }
 
